@@ -180,6 +180,39 @@ Theorem c14_rotation : forall dec mac avail,
 Proof. exact rotation_both. Qed.
 Print Assumptions c14_rotation.
 
+(* application ticket callback (matrixSslSetSessionTicketCallback; getTicketKeys): for ALL key lists and ALL callback
+   behaviours (accept / reject / load a key, depending on name and found-flag in any way), a ticket is honoured only if
+   the callback was asked with the correct found-in-list flag and did NOT reject; the key used is in the list as the
+   callback left it, has the ticket's key name, is the cached one when found and the LAST one when the callback had to
+   supply it, and the ticket verifies under that key *)
+Theorem c14_ticket_callback : forall dec mac avail (f : cbfun) c tk st rc c' st',
+  ticket_unlock_cb dec mac avail (Some f) c tk st = (rc, c', st') -> rc = k_PS_SUCCESS ->
+  let name := firstn 16 tk in
+  let found := match find_key name (s_keys st) with Some _ => true | None => false end in
+  f name found <> CbReject /\
+  exists k, In k (s_keys st') /\ beq (k_name k) name = true /\
+            (found = true -> find_key name (s_keys st) = Some k) /\
+            (found = false -> last_key (s_keys st') = Some k) /\
+            ticket_unlock dec mac avail c tk (set_keys st' [k]) = (k_PS_SUCCESS, c') /\
+            mac (hkey k) (ticket_body tk) = ticket_tag tk.
+Proof. exact ticket_callback_respected. Qed.
+Print Assumptions c14_ticket_callback.
+
+(* without a callback the function is ticket_unlock (so every ticket theorem above carries over); with one and under
+   Hunf, what is honoured was MACed by the server under a key the application did not reject *)
+Theorem c14_ticket_callback_none : forall dec mac avail c tk st,
+  ticket_unlock_cb dec mac avail None c tk st = (let '(rc, c') := ticket_unlock dec mac avail c tk st in (rc, c', st)).
+Proof. exact unlock_cb_none. Qed.
+Print Assumptions c14_ticket_callback_none.
+
+Theorem c14_ticket_callback_unforgeable : forall dec mac avail signed (f : cbfun) c tk st c' st',
+  unforgeable mac signed tk ->
+  ticket_unlock_cb dec mac avail (Some f) c tk st = (k_PS_SUCCESS, c', st') ->
+  f (firstn 16 tk) (match find_key (firstn 16 tk) (s_keys st) with Some _ => true | None => false end) <> CbReject
+  /\ exists k, In k (s_keys st') /\ In (hkey k, ticket_body tk) signed.
+Proof. exact ticket_callback_unforgeable. Qed.
+Print Assumptions c14_ticket_callback_unforgeable.
+
 (* ---- TLS 1.3 tickets: handling of the sealed session parameters (version, suite, lifetime, issue time) by
    tls13ValidateSessionParams; AES-GCM sealing, PSK derivation and binder check are NOT modelled *)
 Theorem c14_tls13_validate_partial : forall c suite p st,
